@@ -155,7 +155,7 @@ class Dropout(nn.Module):
         random_data = np.where(random_data <= self.p, 0, 1)
         if self.p < 1:
             random_data = random_data / (1-self.p) # scale data
-        random_t = synapgrad.tensor(random_data)
+        random_t = Tensor(random_data.astype(x.dtype)) # mask in the dtype of the input: survivors scale by exactly 1/(1-p)
         
         return x*random_t
     
